@@ -272,6 +272,9 @@ class NumericRange(RangeMixin, qcore.Query):
         from whoosh.fields import NUMERIC
         from whoosh.util.numeric import tiered_ranges
 
+        if self.fieldname not in ixreader.schema:
+            # Same policy as Term: an unknown field matches nothing
+            return qcore.NullQuery
         field = ixreader.schema[self.fieldname]
         if not isinstance(field, NUMERIC):
             raise Exception("NumericRange: field %r is not numeric"
